@@ -862,6 +862,27 @@ func c05StatusGates(c *Ctx, ms map[string]*fsmx.Machine) {
 			inRange := strings.Contains(ssax.Path(ss.Store.Addr), "next(range(") && strings.Contains(ssax.Path(ss.Store.Addr), "DKGProposalPayload.Quorum")
 			// the reset must happen only on the advance path: after the advance store
 			afterAdvance := len(advance) > 0 && !ssax.ReachableAvoiding(fn, ss.Store, nil, advance)
+			if !afterAdvance && len(advance) > 0 {
+				// the decision may also FOLLOW the reset (`for … { reset }; return advanceEvent`): then every way out of the
+				// function from the reset passes an advance emission, and no other event's emission is reachable from it
+				follows := true
+				for _, ret := range ssax.Returns(fn) {
+					if ssax.ReachableFrom(fn, ss.Store, ret, nil, advance) {
+						follows = false
+					}
+				}
+				for _, x := range em.Names() {
+					if t := m.Trans[[2]string{m.ByName[auto].Src[0], x}]; t != nil && !isCancelState(t.Dst) {
+						continue
+					}
+					for _, other := range em.Consts[x] {
+						if ssax.ReachableFrom(fn, ss.Store, other, nil, nil) {
+							follows = false
+						}
+					}
+				}
+				afterAdvance = follows
+			}
 			c.R.Check(ss.K == want && inRange && afterAdvance, "C05/R5", key, "on advance every participant's status is reset to "+c05Resets[auto], c.PosOf(ss.Store),
 				sprintf("stores status %d (want %d = %s), over-quorum-range=%v, only-after-advance-decision=%v", ss.K, want, c05Resets[auto], inRange, afterAdvance))
 		}
